@@ -427,6 +427,11 @@ class MarkdownNormalizer(Renderer):
                 prefix = f"{element.bullet} "
                 subsequent_indent = "  "
 
+            # An item that starts on the first line of its container (a list that is the first
+            # thing in a list item or footnote) has no line above it to separate from.
+            if not is_tight and self._prefix != self._second_prefix:
+                self._suppress_item_break = True
+
             with self.container(prefix, subsequent_indent):
                 rendered_item = self.render(child)
                 result.append(rendered_item)
